@@ -346,13 +346,123 @@ def synthetic_shared(rep, rnd, tier):
                 return
 
 
+def module_tables():
+    """the value of every module-level table of the library (dict / list / set / tuple bound to a module global or to a class attribute
+    that is not empty when first seen): the compute-function tables, parser registries, option tables ...  Operations must leave them
+    as they are -- they are shared by every manager of the process.  (Containers that start empty are left out: a cache may fill.)"""
+    import sys
+    import enum
+
+    def canon(x, depth=0):
+        if depth > 6:
+            return '...'
+        if isinstance(x, Buffer):
+            return ('Buffer',) + tuple(snapshot(x))
+        if isinstance(x, dict):
+            return ('dict', tuple((canon(k, depth + 1), canon(v, depth + 1)) for k, v in x.items()))
+        if isinstance(x, (set, frozenset)):
+            return ('set', tuple(sorted(repr(canon(v, depth + 1)) for v in x)))
+        if isinstance(x, (list, tuple)):
+            return (type(x).__name__, tuple(canon(v, depth + 1) for v in x))
+        if isinstance(x, (int, str, bytes, bool, float, type(None), enum.Enum)):
+            return repr(x)
+        return getattr(x, '__qualname__', None) or type(x).__name__
+    out = {}
+    for mn, m in sorted(sys.modules.items()):
+        if not (mn == 'microschc' or mn.startswith('microschc.')) or m is None:
+            continue
+        for name, v in sorted(vars(m).items()):
+            if name.startswith('__'):
+                continue
+            if isinstance(v, (dict, list, set, tuple)) and len(v):
+                out['%s.%s' % (mn, name)] = canon(v)
+            elif isinstance(v, type) and getattr(v, '__module__', '') == mn and not issubclass(v, enum.Enum):
+                for an, av in sorted(vars(v).items()):
+                    if not an.startswith('__') and isinstance(av, (dict, list, set, tuple)) and len(av):
+                        out['%s.%s.%s' % (mn, name, an)] = canon(av)
+    return out
+
+
+def check_tables(rep, tables0, where):
+    now = module_tables()
+    rep.oracle_evals += 1
+    rep.hist['module-tables-compared'] = len(tables0)
+    for k, v in tables0.items():
+        if now.get(k) != v:
+            rep.violation('property', 'module-level table %s is no longer what it was before %s: operations changed state shared by every manager of the process (%s -> %s)'
+                          % (k, where, str(v)[:120], str(now.get(k))[:120]), dict(layer='history', op='module-tables', table=k, where=where))
+            return False
+    return True
+
+
+def process_histories(rep, rnd, tier):
+    """what one decompression did must not show in the next one, whatever stacks and rules the process serves in between: datagrams with
+    computed lengths and checksums of different stacks (IPv6 / IPv4 with UDP and CoAP, with UDP carrying SCTP -- port 132 --, with SCTP,
+    bare SCTP) are compressed and decompressed in turn with rules computing every computable field; each round trip must restore the
+    packet, in every order of the stacks, and the module-level tables must stay as they were"""
+    from gens import STACK_GENS
+    import packets as P
+    tables0 = module_tables()
+    n = 60 if tier == 'quick' else 600
+    kinds_of = {'IPv6-UDP-CoAP': None, 'IPv4-UDP-CoAP': None, 'SCTP': None, 'IPv6': None, 'IPv4': None}
+    for h in range(n):
+        seq = []
+        order = [rnd.choice(['udp', 'udp-sctp', 'ip-sctp', 'sctp', 'udp-coap']) for _ in range(rnd.randint(3, 6))]
+        if h % 3 == 0:
+            order = ['udp', 'udp-sctp', 'udp', 'udp-sctp'] if h % 2 else ['udp-coap', 'udp-sctp', 'ip-sctp', 'udp-sctp']
+        for step, what in enumerate(order):
+            v6 = rnd.random() < 0.5
+            if what == 'udp-coap':
+                stack = 'IPv6-UDP-CoAP' if v6 else 'IPv4-UDP-CoAP'
+                pkt = rnd.choice(STACK_GENS[stack][:1])(rnd)[0]
+            elif what in ('udp', 'udp-sctp'):
+                stack = 'IPv6' if v6 else 'IPv4'
+                dport = 132 if what == 'udp-sctp' else rnd.choice([0, 53, 5684, 9899])
+                src, dst = (rnd.randbytes(16), rnd.randbytes(16)) if v6 else (rnd.randbytes(4), rnd.randbytes(4))
+                payload = P.raw_payload(rnd, dport)[0]
+                u = P.udp(rnd, payload, csum=(lambda x: P.udp_checksum_v6(src, dst, x)) if v6 else (lambda x: P.udp_checksum_v4(src, dst, x)), dport=dport)
+                pkt = P.ipv6(rnd, u, 17, src, dst) if v6 else P.ipv4(rnd, u, 17, src, dst)
+            elif what == 'ip-sctp':
+                stack = 'IPv6' if v6 else 'IPv4'
+                pkt = (P.pkt_ipv6_sctp if v6 else P.pkt_ipv4_sctp)(rnd)[0]
+            else:
+                stack = 'SCTP'
+                pkt = P.sctp(rnd)[0]
+            o = impl_outcome(lambda: parser_for(stack).parse(Buffer(pkt, len(pkt) * 8)))
+            if o[0] != 'OK':
+                continue
+            pd = o[1]
+            pd.direction = DI.UP
+            rule = gen_rule(rnd, pd, randbits(rnd, rnd.randint(1, 6)), kinds=('comp', 'comp', 'comp', 'vs', 'ns'))
+            ncomp = sum(1 for k in rule._kinds if k == 'comp')
+            got = obs_bits(with_timeout(lambda: compress(pd, rule)))
+            rep.count('process-history:%s' % what, key=('ph', h, step))
+            rep.oracle_evals += 1
+            rep.hist['process-history:computed-fields:%d' % min(ncomp, 6)] = rep.hist.get('process-history:computed-fields:%d' % min(ncomp, 6), 0) + 1
+            case = dict(layer='history', op='process-history', order=order, step=step, stack=stack, packet=pkt.hex(), rule=n_rule(rule))
+            if got[0] != 'OK' or not isinstance(got[1], str):
+                rep.violation('property', 'process history %s, step %d: compress gives %s' % ('/'.join(order), step, str(got)[:80]), case)
+                return
+            back = obs_bits(with_timeout(lambda: decompress(mk(got[1], R), rule)))
+            if back != ('OK', b2s(pkt)):
+                fresh_first = 'the same call is correct' if step else 'first call'
+                rep.violation('property', 'process history %s, step %d (%s, %d computed fields): decompression does not restore the packet (%s): %s...'
+                              % ('/'.join(order), step, what, ncomp, fresh_first, str(back)[:60]), case)
+                return
+        if not check_tables(rep, tables0, 'the process histories'):
+            return
+
+
 def run(rep, tier, seed):
+    tables0 = module_tables()
     bc.run_family(rep, 'C16', tier, seed)
+    process_histories(rep, rng_for(seed, 'C16-process'), tier)
     synthetic_shared(rep, rng_for(seed, 'C16-synthetic'), tier)
     front_histories(rep, rng_for(seed, 'C16-front'), tier)
     rnd = rng_for(seed, 'C16-histories')
     histories(rep, rnd, tier)
     shared_objects(rep, rnd, tier)
+    check_tables(rep, tables0, 'this run (Buffer operations, histories of managers and front ends, shared objects)')
 
 
 def replay(case):
